@@ -11,7 +11,7 @@ SPEC = {
              "valid responses are real HMAC-SHA256 values computed by the harness from the challenge it read back. quick: every "
              "history of length <= 3 over a 28-event alphabet (2 connections x {first-connect, phase-1 A/B, phase-2 A/B valid-latest, "
              "stale, foreign key, foreign connection's challenge, junk, tunnel-type phase 1/2, malformed} + ban/unban/blacklist/expire) "
-             "plus 4000 seeded random histories of length <= 14 over 2-3 connections sharing or not sharing addresses, 1-3 clients, "
+             "plus 12000 seeded random histories of length <= 14 over 2-3 connections sharing or not sharing addresses, 1-3 clients, "
              "unknown ids, id 0, deleted / key-less clients, limiter bursts 1-3, refills, unknown connections; thorough: length <= 4 "
              "exhaustive plus 60000 random. After every event the harness reads the response written, IsAuthenticated/GetClientID/"
              "pending challenge of every connection, GetControlConnectionByClientID of every client, IsBanned/IsAllowed of every address; "
